@@ -49,6 +49,7 @@ def run(ctx: Ctx, rep: Report) -> None:
     rep.rule("C01-R7", "endOfMibView markers are never delivered as instances", floor=2)
     rep.rule("C01-R8", "order within a root is preserved between fetch and yield", floor=1)
     rep.rule("C01-R9", "an exception a fetcher raises itself ends the walk the same way at every fetch site (first request and continuation requests)", floor=2)
+    rep.rule("C01-R12", "the pythonic walk methods hand the caller's roots and options to the raw walk one-to-one (shared with C15-R4)", floor=2)
     rep.rule("C01-R11", "the fetchers' progress guard refuses only non-advancing OIDs: it pairs requested[i] with retrieved[i] and passes requested < retrieved (a conformant agent is never refused; shared with C03-R2/R3)", floor=4)
     rep.rule("C01-R10", "the GETBULK-based walk is the same loop: delegation, faithful fetcher results, suffix cut at the marker (shared with C02-R0/R1/R4)", floor=3)
     rep.assumptions += [
@@ -70,8 +71,10 @@ def run(ctx: Ctx, rep: Report) -> None:
 
     sub = Report(rep.prop, rep.tier)
     c02.check_bulk_fetch(ctx, sub, wm)
+    c02.check_bulk_builder(ctx, sub, wm, "C02-R2", "C02-R3")
     rep.adopt(sub, "C01-R10")
     rep.adopt_rules(ctx.sub_run("c03", rep), "C01-R11", ["C03-R2", "C03-R3"])
+    rep.adopt_rules(ctx.sub_run("c15", rep), "C01-R12", ["C15-R4"], containing="walk")
 
 
 def fetcher_raises(ctx: Ctx, fn: FuncInfo, seam: Optional[FuncInfo], depth: int = 0, seen=None) -> List[Tuple[FuncInfo, ast.Raise, ClassInfo]]:
